@@ -397,3 +397,36 @@ Proof.
   apply (from_iter_spec c t (spec_equals c t) rs); auto; [|apply incl_refl].
   intros x y Hx Hy. rewrite Forall_forall in Hw. apply equals_char; auto.
 Qed.
+
+(* RdataSetOwned::insert on a set holding [kept]: the RDATA is appended iff no member is
+   equal to it (the characterisation), and the flag says which *)
+Theorem set_insert_full c t be kept r :
+  Forall small kept -> Forall wf_bytes kept -> small r -> wf_bytes r ->
+  set_insert be c t (inner_of be kept) r =
+  Ok (if existsb (fun y => spec_equals c t r y) kept
+      then (inner_of be kept, false)
+      else (inner_of be (kept ++ [r]), true)).
+Proof.
+  intros Hs Hw Hr Hwr. unfold set_insert. rewrite set_iter_inner by exact Hs.
+  assert (Heq : forall x y, In x (r :: kept) -> In y (r :: kept) ->
+                equals c t x y = Ok (spec_equals c t x y)).
+  { assert (W : Forall wf_bytes (r :: kept)) by (constructor; assumption).
+    rewrite Forall_forall in W. intros x y Hx Hy. apply equals_char; auto. }
+  rewrite (any_equal_spec c t (spec_equals c t) (r :: kept) Heq r kept);
+    [|left; reflexivity|intros z Hz; right; exact Hz].
+  cbn [bind]. destruct (existsb (fun y => spec_equals c t r y) kept); [reflexivity|].
+  rewrite inner_snoc. reflexivity.
+Qed.
+
+(* ... so a set whose members are pairwise unequal stays so, and iterates in insertion order *)
+Theorem set_insert_iter c t be kept r inner' flag :
+  Forall small kept -> Forall wf_bytes kept -> small r -> wf_bytes r ->
+  set_insert be c t (inner_of be kept) r = Ok (inner', flag) ->
+  set_iter be inner' = (if flag then kept ++ [r] else kept) /\
+  flag = negb (existsb (fun y => spec_equals c t r y) kept).
+Proof.
+  intros Hs Hw Hr Hwr H. rewrite (set_insert_full c t be kept r Hs Hw Hr Hwr) in H.
+  destruct (existsb (fun y => spec_equals c t r y) kept); inversion H; subst; cbn [negb].
+  - split; [apply set_iter_inner; exact Hs|reflexivity].
+  - split; [|reflexivity]. apply set_iter_inner. apply Forall_app. split; [exact Hs|]. constructor; auto.
+Qed.
